@@ -320,9 +320,9 @@ func GenStrings(s Shape, variant int) []string {
 
 // ---------------------------------------------------------------- null patterns for long columns
 
-const NNullPatterns = 5
+const NNullPatterns = 8
 
-var NullPatternNames = []string{"none", "even", "odd", "first-only-valid", "first-9-null"}
+var NullPatternNames = []string{"none", "even", "odd", "first-only-valid", "first-9-null", "only-first-null", "only-last-null", "only-middle-null"}
 
 // IsNull reports whether row i of a column of n rows is null under pattern p.
 func IsNull(p, i, n int) bool {
@@ -335,6 +335,12 @@ func IsNull(p, i, n int) bool {
 		return i != 0
 	case 4:
 		return i < 9
+	case 5:
+		return i == 0
+	case 6:
+		return i == n-1
+	case 7:
+		return i == n/2
 	}
 	return false
 }
